@@ -138,7 +138,8 @@ RESUME = {
                              "_kw_args[9] == resume_number",
                              "resume_number == ite(options.processes > 1, 1, 0) + _i"],
         # at most N children alive: a thread is started only into a free slot, and only once
-        'thread.start': ["thread not in G.started", "len(running_threads) < options.processes"],
+        'thread.start': ["thread not in G.started", "len(running_threads) < options.processes",
+                         "tindex(thread) == G.npop - 1"],          # started in the order the layers were handed over
         'thread.is_alive': ["thread in G.started"],
         # "up to N layers make progress": after the start loop all N slots are taken or nothing is waiting
         'enumerate': ["len(running_threads) >= options.processes or len(ready_threads) == 0"],
